@@ -35,6 +35,7 @@ ASSUMPTIONS = ["allele counts in 0..ploidy, int8 storage as the genotype-matrix 
                "Yang: 1/sqrt(ploidy p(1-p)) applied to both factors is modelled as division by ploidy p(1-p)"]
 
 EST = ("mol", "vr", "yang", "gw")
+BIG_N = 8
 
 # ------------------------------------------------------------------ generation
 def _pow2(k): return k > 0 and (k & (k - 1)) == 0
@@ -167,7 +168,11 @@ def gen_cases(rng, tier):
         c["wt"] = {"a": [-(rng.randint(1, 32) / 16.0) for _ in range(m)]}
         c["pref"] = rng.choice([None, {"s": 0.5}])
         cases.append(c)
-    N = 150 if tier == "quick" else 2600
+    for (n, m) in ((3, 4), (2, 3)):                          # ... with all eigenvalues inside (-1, 0]
+        c = _one(rng, tier, est="gw", n=n, m=m, ploidy=2, phased=False)
+        c["wt"] = {"a": [-1.0 / 16] * m}; c["pref"] = {"s": 0.5}
+        cases.append(c)
+    N = 350 if tier == "quick" else 4000
     for _ in range(N):
         cases.append(_one(rng, tier))
     return cases
@@ -415,6 +420,9 @@ def emit_case(case, out):
     ex = E.b(_exact_regime(case))
     i, j = case["ij"]
     L1, L2, Q = E.lst, E.lst2, _q
+    # exact elimination inside Coq (inverse, LDL') is cubic in ntaxa with growing rationals: above BIG_N taxa the inverse /
+    # min_inbreeding / is_positive_semidefinite observables are checked by the predicate only (exact fractions in Python)
+    big = _dims(case)[0] > BIG_N
     t, g = _labels(case)
     P = []
     P.append("mat_agree %s %s G" % (ex, L2(out["G"], Q)))
@@ -434,11 +442,13 @@ def emit_case(case, out):
         P.append("mininb_agree %s %s G Hc" % (_optq(out["mininb_" + t_]), f))
     P.append("q_agree %s %s (max_all Coancestry G) && q_agree %s %s (max_inbreeding Coancestry G) && mininb_agree %s Coancestry G Hc"
              % (ex, Q(out["max_default"]), ex, Q(out["maxinb_default"]), _optq(out["mininb_default"])))
-    P.append("psd_agree %s (psd_model %s G) && psd_agree %s (psd_model (-1) G) && psd_agree %s (psd_model %s G)"
-             % (_optb(out["psd"]), E.q(Fraction(2e-14)), _optb(out["psd_neg"]), _optb(out["psd_tol"]), E.q(Fraction(case["tol"]))))
+    if not big:
+        P.append("psd_agree %s (psd_model %s G) && psd_agree %s (psd_model (-1) G) && psd_agree %s (psd_model %s G)"
+                 % (_optb(out["psd"]), E.q(Fraction(2e-14)), _optb(out["psd_neg"]), _optb(out["psd_tol"]), E.q(Fraction(case["tol"]))))
     P.append(sub)
     lt, lg = E.opt(t, lambda l: L1(l, E.s)), E.opt(g, lambda l: L1(l, E.z))
-    return ("(match with_labels %s %s %s with ROk cm => let G := cm_mat cm in let Hc := inv_checked G in\n     " % (lt, lg, mdl)
+    hc = "@None (list (list Q))" if big else "inv_checked G"
+    return ("(match with_labels %s %s %s with ROk cm => let G := cm_mat cm in let Hc := %s in\n     " % (lt, lg, mdl, hc)
             + "\n  && ".join(P) + "\n   | _ => false end)")
 
 # ------------------------------------------------------------------ independent predicate
